@@ -121,7 +121,11 @@ class C07:
                 valued.append(i)
             else:
                 self.stats["valued_not_exposable"] += 1
-        if not valued:
+        # constant-only Vars that carry NO value although they have a tensor type of known rank: their reported type (which may
+        # have been inferred from a propagated operand value) is checked against what the model computes
+        typed_only = [i for i, v in enumerate(env) if v is not None and v._value is None and isinstance(v.type, Tensor)
+                      and v.type.shape is not None and not from_input(v)]
+        if not valued and not typed_only:
             return
         arg_i = next(i for i, s in enumerate(prog["sources"]) if s["t"] == "arg")
         arg = env[arg_i]
@@ -130,7 +134,7 @@ class C07:
             warnings.simplefilter("ignore")
             probe = w.op.neg(arg)
             try:
-                model = w.spox.build({"x": arg}, {"probe": probe, **{f"v{i}": env[i] for i in valued}})
+                model = w.spox.build({"x": arg}, {"probe": probe, **{f"v{i}": env[i] for i in valued}, **{f"t{i}": env[i] for i in typed_only}})
             except Exception as e:  # noqa: BLE001
                 self.run.fail("corr", "C07/runtime-model-build", "could not build the model exposing the valued Vars",
                               {"exception": f"{type(e).__name__}: {str(e)[:300]}"})
@@ -154,6 +158,24 @@ class C07:
                 self.stats["runtime_run_failed"] += 1
                 self.run.notes.append(f"onnxruntime failed to run an exposing model: {type(e).__name__}: {str(e)[:160]}")
                 return
+            for i in typed_only:
+                self.stats["runtime_type_checks"] += 1
+                g, t = got[f"t{i}"], env[i].type
+                bad = None
+                if not isinstance(g, np.ndarray):
+                    bad = f"runtime value is a {type(g).__name__}"
+                elif g.dtype != t.dtype and not (t.dtype.kind in "UO" and g.dtype.kind in "UO"):
+                    bad = f"runtime dtype {g.dtype} != reported {t.dtype}"
+                elif g.ndim != len(t.shape) or any(isinstance(r, int) and r != k for r, k in zip(t.shape, g.shape)):
+                    bad = f"runtime shape {list(g.shape)} does not conform to the reported type {t}"
+                if bad:
+                    p = owner.get(i)
+                    tname = prog["steps"][p]["t"] if p is not None else prog["sources"][i]["t"]
+                    if tname == "linreg":
+                        continue       # LinearRegressor's reported type is wrong whatever its inputs (known finding F6 of C06), not a value matter
+                    self.ck.impl_fail(f"C07/type-from-value-unsound/{tname}",
+                                      f"the type reported for an output of {tname} (a constant expression whose value was not kept) is contradicted by "
+                                      f"what the built model computes: {bad}", prog, run_["backend"], run_["plan"], p, {"env_index": i, "problem": bad})
             for i in valued:
                 self.stats["runtime_comparisons"] += 1
                 d = compare_runtime(env[i]._get_value(), got[f"v{i}"])
